@@ -1,5 +1,5 @@
 #!/bin/sh
-cd "$(dirname "$0")" 2>/dev/null; cd "$PWD"
+cd "$(dirname "$0")/.."
 for P in C01 C02 C03 C06 C08 C10 C11 C12 C13 C14 C15 C16 C22 C23 C32 C34 C35 C38; do
   START=$(date +%s)
   OUT=$(VERIF_CASE_STRIDE=12 ./check $P --tier thorough --jobs 6 2>&1)
